@@ -123,10 +123,55 @@ def harvest_paths(repo, known):
 # ---------------------------------------------------------------------------------------------------
 
 class PW:
-    """a password leaf (index into the token list of the run)"""
+    """a password leaf (index into the token list of the run).  related / related2: the password is not a random token but
+    a value RELATED to other settings (equal to the user name, a piece of it, another field of the module, the profile
+    name, 1-3 characters ...) -- under cfg (related) and, sometimes, under cfg' as well (related2)"""
 
     def __init__(self, idx, numeric=False):
         self.idx, self.numeric = idx, numeric
+        self.related = self.related2 = self.kind = None
+
+
+REL_P = [0.25]   # share of passwords that are related to other configured values (raised by the focused search)
+
+
+def _pieces(rng, s):
+    """(kind, value) candidates cut out of the string s"""
+    out = []
+    if len(s) >= 2:
+        k = rng.randrange(1, len(s))
+        out += [("prefix", s[:k]), ("suffix", s[k:])]
+        i = rng.randrange(0, len(s) - 1)
+        j = rng.randrange(i + 1, len(s) + 1)
+        out.append(("inside", s[i:j]))
+    return out
+
+
+def related_values(rng, root, module, path):
+    """[(kind, value)]: passwords that are related to what the configuration shows elsewhere"""
+    out = []
+    user = next((v for k, v in module.items() if k.lower() == "username" and isinstance(v, str) and v), None)
+    if user:
+        out.append(("equals-username", user))
+        out += [(k + "-of-username", v) for k, v in _pieces(rng, user)]
+        out.append(("username-plus", user + rng.choice(["1", "x", "!", ":"])))
+        out.append(("short", rng.choice(user)))
+    fields = [(k, v) for k, v in module.items() if isinstance(v, str) and v and k.lower() not in ("username", "class-name")]
+    if fields:
+        k, v = rng.choice(fields)
+        out.append(("equals-field:" + k.lower(), v))
+        host = re.sub(r"^\w+://", "", v).split("/")[0]
+        if host and host != v:
+            out.append(("part-of-field:" + k.lower(), host))
+        out += [("%s-of-field:%s" % (kk, k.lower()), vv) for kk, vv in _pieces(rng, v)[:1]]
+    if len(path) >= 2:
+        out.append(("equals-name", path[-2]))
+    cids = [p.get("client-id") for p in (root.get("client-profile") or {}).values() if isinstance(p, dict) and isinstance(p.get("client-id"), str)]
+    if cids and path and path[0] == "sasl":
+        out.append(("equals-client-id", rng.choice(cids)))
+    out.append(("short", "".join(rng.choice(ALNUM) for _ in range(rng.randrange(1, 4)))))
+    out.append(("short", rng.choice(["a", "1", "e", "o:", "ab", "pw", "***", "x"])))
+    return [(k, v) for k, v in out if v]
 
 
 ALNUM = "abcdefghijklmnopqrstuvwxyzABCDEFGHIJKLMNOPQRSTUVWXYZ0123456789"
@@ -451,10 +496,19 @@ def gen_config(rng, lits, rich=False, dotted=True, nested=False):
                 if is_pw_path(pth):
                     v.idx = len(live)
                     live.append(v)
+                    if rng.random() < REL_P[0]:
+                        cands = related_values(rng, cfg, t, pth)
+                        v.kind, v.related = rng.choice(cands)
+                        v.numeric = False
+                        if rng.random() < 0.3:
+                            other = [c for c in cands if c[1] != v.related]
+                            if other:
+                                v.related2 = rng.choice(other)[1]
                 else:
                     t[k] = "not-a-password-%d" % rng.randrange(10 ** 6)
     settle(cfg, ())
     info["n_pw"] = len(live)
+    info["related"] = [p.kind for p in live if p.related is not None]
     info["sections"] = {k: (len(v) if isinstance(v, dict) else 1) for k, v in cfg.items()}
     info["dotted"] = sum(1 for sec in cfg.values() if isinstance(sec, dict) for k in sec if "." in k)
     return cfg, info
@@ -482,9 +536,46 @@ def gen_tokens(rng, cfg):
                 walk(v)
     walk(cfg)
     leaves.sort(key=lambda p: p.idx)
-    a = [make_token(rng, p.numeric) for p in leaves]
-    b = [make_token(rng, p.numeric) for p in leaves]
+    a = [p.related if p.related is not None else make_token(rng, p.numeric) for p in leaves]
+    b = [p.related2 if p.related2 is not None else make_token(rng, p.numeric) for p in leaves]
     return a, b
+
+
+def pw_leaf_keys(cfg, keys=()):
+    """[(key path with the configuration's own spelling, PW)]"""
+    out = []
+    if isinstance(cfg, dict):
+        for k, v in cfg.items():
+            out += pw_leaf_keys(v, keys + (k,))
+    elif isinstance(cfg, PW):
+        out.append((list(keys), cfg))
+    return out
+
+
+def set_at(cfg, keys, value):
+    """copy of the (materialised) configuration with the leaf at keys replaced"""
+    if not keys:
+        return value
+    out = dict(cfg)
+    out[keys[0]] = set_at(cfg[keys[0]], keys[1:], value)
+    return out
+
+
+def public_text(cfg):
+    """everything the configuration holds apart from its passwords (keys and values, lower-cased): a password that occurs
+    in here cannot be searched for in a response -- a hit would be explained by the legitimately shown setting"""
+    def strip(t):
+        if isinstance(t, PW):
+            return ""
+        if isinstance(t, dict):
+            return {k: strip(v) for k, v in t.items()}
+        return t
+    return json.dumps(strip(cfg), ensure_ascii=False).lower()
+
+
+def searchable(token, text):
+    s = str(token)
+    return len(s.encode("utf-8")) >= 8 and s.lower() not in text
 
 
 def password_paths(cfg, path=()):
